@@ -74,3 +74,31 @@ def small_alphabet(s):
     non-ASCII code points (U+00E9 letter, U+0663 Unicode digit, U+2000 Unicode space) - the int() model is exact there,
     anything else would make CrossHair realise (sample) the character."""
     return all([any([c < 128, c == 0xE9, c == 0x663, c == 0x2000]) for c in [ord(ch) for ch in s]])
+
+
+def pick(seq, k):
+    """Select seq[k] by explicit forking (indexing a list of *classes* with a symbolic int makes CrossHair build a symbolic type)."""
+    for i in range(len(seq) - 1):
+        if k == i:
+            return seq[i]
+    return seq[-1]
+
+
+def concretize(k, n, lo=0):
+    """Fork on the symbolic selector k in [lo, lo+n) and return a *concrete* int on each path."""
+    for i in range(lo, lo + n - 1):
+        if k == i:
+            return i
+    return lo + n - 1
+
+
+def untraced():
+    """Context manager: run concrete (selector-determined) work without CrossHair tracing (50-100x faster)."""
+    import contextlib
+
+    try:
+        from crosshair.tracers import NoTracing, is_tracing
+
+        return NoTracing() if is_tracing() else contextlib.nullcontext()
+    except Exception:  # noqa: BLE001
+        return contextlib.nullcontext()
